@@ -33,6 +33,8 @@ pub enum HEv {
 #[derive(Clone)]
 struct Behaviour {
     nonblocking: bool,
+    /// poll non-blocking until "nothing yet", then take the next message with a blocking recv(), and so on
+    mixed: bool,
     echo: bool,
     /// return from the handler (dropping the stream) after this many messages
     stop_after: Option<usize>,
@@ -48,13 +50,18 @@ pub struct St {
 fn handler(mut stream: WebsocketStream, st: Arc<St>) {
     // the connection id travels in the order of handshakes (one connection at a time per lab)
     let id = st.pending_ids.lock().unwrap().pop().unwrap_or_default();
-    let b = st.behaviours.lock().unwrap().get(&id).cloned().unwrap_or(Behaviour { nonblocking: false, echo: false, stop_after: None });
+    let b = st.behaviours.lock().unwrap().get(&id).cloned().unwrap_or(Behaviour { nonblocking: false, mixed: false, echo: false, stop_after: None });
     let fin = st.finish.lock().unwrap().get(&id).cloned().unwrap_or_default();
     let log = |e: HEv| st.logs.lock().unwrap().entry(id.clone()).or_default().push(e);
     let mut count = 0usize;
     let mut idle_since: Option<Instant> = None;
+    let mut block_next = false;
     loop {
-        let got: Option<Result<Message, WebsocketError>> = if b.nonblocking {
+        let got: Option<Result<Message, WebsocketError>> = if b.mixed && block_next && !fin.load(Ordering::SeqCst) {
+            // the previous non-blocking poll said "nothing yet": take the next message with the blocking call
+            block_next = false;
+            Some(stream.recv())
+        } else if b.nonblocking {
             match stream.recv_nonblocking() {
                 Restion::Ok(m) => Some(Ok(m)),
                 Restion::Err(e) => Some(Err(e)),
@@ -85,6 +92,7 @@ fn handler(mut stream: WebsocketStream, st: Arc<St>) {
                 return;
             }
             None => {
+                block_next = true;
                 // nothing yet: keep polling until the harness declares the script over and 60 ms have passed idle
                 if fin.load(Ordering::SeqCst) {
                     let t = *idle_since.get_or_insert_with(Instant::now);
@@ -107,11 +115,16 @@ struct Lab {
 
 impl Lab {
     fn new() -> Result<Lab, String> {
+        Lab::with_timeout(None)
+    }
+
+    fn with_timeout(timeout: Option<Duration>) -> Result<Lab, String> {
         let port = hvcommon::net::free_port("127.0.0.1");
         let addr: SocketAddr = format!("127.0.0.1:{}", port).parse().unwrap();
         let (tx, rx) = channel();
         let app: App<St> = App::new_with_config(2, St { behaviours: Mutex::new(HashMap::new()), logs: Mutex::new(HashMap::new()), finish: Mutex::new(HashMap::new()), pending_ids: Mutex::new(Vec::new()) })
             .with_websocket_route("/ws", websocket_handler(handler))
+            .with_connection_timeout(timeout)
             .with_shutdown(rx);
         let state = app.get_state();
         std::thread::spawn(move || {
@@ -150,6 +163,10 @@ struct Script {
     nonblocking: bool,
     echo: bool,
     delivery: u8,
+    /// handler alternates between non-blocking polls and blocking receives
+    mixed: bool,
+    /// run against the lab app that has a connection timeout configured
+    timeout_app: bool,
 }
 
 fn gen_payload(rng: &mut Rng, text: bool) -> Vec<u8> {
@@ -215,7 +232,7 @@ fn gen_script(rng: &mut Rng) -> Script {
             items.pop();
         }
     }
-    Script { key, items, end, nonblocking: rng.chance(1, 2), echo: rng.chance(1, 2), delivery: rng.below(3) as u8 }
+    Script { key, items, end, nonblocking: rng.chance(1, 2), echo: rng.chance(1, 2), delivery: rng.below(3) as u8, mixed: false, timeout_app: false }
 }
 
 /// Client frames in wire order (clear payloads) and the handler/server expectations derived from them.
@@ -259,8 +276,35 @@ fn script_json(s: &Script) -> J {
         ("end", J::s(format!("{:?}", s.end).chars().take(40).collect::<String>())),
         ("receive", J::s(if s.nonblocking { "recv_nonblocking polling" } else { "recv (blocking)" })),
         ("echo", J::Bool(s.echo)),
-        ("delivery", J::s(["whole", "bytewise", "split-inside-header/length/key"][s.delivery as usize])),
+        ("delivery", J::s(["whole", "bytewise", "split-inside-header/length/key", "frame by frame with pauses, split inside the payload", "400 ms pauses between and inside frames (app with a 250 ms connection timeout)"][s.delivery as usize])),
+        ("handler", J::s(if s.mixed { "non-blocking polls alternating with blocking recv" } else if s.nonblocking { "recv_nonblocking loop" } else { "recv" })),
     ])
+}
+
+/// Keep a script short enough for frame-by-frame delivery with pauses: at most `max_items` items and payloads of at
+/// most `max_payload` bytes, no abrupt disconnect (the paused deliveries are about what IS delivered).
+fn trim_for_slow(s: &mut Script, max_items: usize, max_payload: usize) {
+    s.items.truncate(max_items);
+    for it in s.items.iter_mut() {
+        if let Item::Msg { payload, cuts, text, .. } = it {
+            if payload.len() > max_payload {
+                let mut n = max_payload;
+                if *text {
+                    while n > 0 && std::str::from_utf8(&payload[..n]).is_err() {
+                        n -= 1;
+                    }
+                }
+                payload.truncate(n);
+                cuts.retain(|c| *c <= n);
+            }
+        }
+    }
+    if s.key.as_deref().map(|k| k.trim().is_empty()).unwrap_or(true) {
+        s.key = Some("dGhlIHNhbXBsZSBub25jZQ==".into());
+    }
+    if matches!(s.end, End::AbruptDisconnect) {
+        s.end = End::ClientClose(vec![]);
+    }
 }
 
 fn run_script(r: &mut Report, lab: &Lab, s: &Script, id: &str, rng: &mut Rng, replay: &[String]) -> Option<Vec<HEv>> {
@@ -274,11 +318,11 @@ fn run_script(r: &mut Report, lab: &Lab, s: &Script, id: &str, rng: &mut Rng, re
         return None;
     }
     let fin = Arc::new(AtomicBool::new(false));
-    lab.state.behaviours.lock().unwrap().insert(id.to_string(), Behaviour { nonblocking: s.nonblocking, echo: s.echo, stop_after });
+    lab.state.behaviours.lock().unwrap().insert(id.to_string(), Behaviour { nonblocking: s.nonblocking, mixed: s.mixed, echo: s.echo, stop_after });
     lab.state.finish.lock().unwrap().insert(id.to_string(), fin.clone());
     lab.state.pending_ids.lock().unwrap().push(id.to_string());
     let viol = |r: &mut Report, sig: &str, what: String, extra: J| {
-        r.violation(sig, format!("[{} {}] {}", if s.nonblocking { "non-blocking" } else { "blocking" }, ["whole", "bytewise", "split"][s.delivery as usize], what), J::obj(vec![("script", script_json(s)), ("observed", J::s(&what)), ("detail", extra)]), replay.to_vec());
+        r.violation(sig, format!("[{} {}] {}", if s.mixed { "mixed" } else if s.nonblocking { "non-blocking" } else { "blocking" }, ["whole", "bytewise", "split", "paused", "slow/timeout-app"][s.delivery as usize], what), J::obj(vec![("script", script_json(s)), ("observed", J::s(&what)), ("detail", extra)]), replay.to_vec());
     };
     let mut c = match Conn::open(lab.addr) {
         Ok(c) => c,
@@ -336,6 +380,26 @@ fn run_script(r: &mut Report, lab: &Lab, s: &Script, id: &str, rng: &mut Rng, re
         0 => c.send(&wire, &[], 0).is_ok(),
         1 if wire.len() <= 3000 => c.send(&wire, &[1], 1).is_ok(),
         1 => c.send(&wire, &[1, 1, 1, 1, 1, 1, 1, 1, 1, 1, 1, 1, 1, 1, 4096], 1).is_ok(),
+        3 | 4 => {
+            // frame by frame: a pause before each frame (the handler sees "nothing yet" / waits in recv), and a second
+            // pause inside the payload of the frame; delivery 4 uses pauses longer than the app's connection timeout
+            let (before_ms, inside_ms) = if s.delivery == 4 { (400u64, 400u64) } else { (12, 8) };
+            let mut ok = true;
+            for (i, st) in frame_starts.iter().enumerate() {
+                let en = frame_starts.get(i + 1).copied().unwrap_or(wire.len());
+                let fb = &wire[*st..en];
+                // long pauses only around the first three frames (the script may have dozens)
+                let long = s.delivery == 3 || i < 3;
+                std::thread::sleep(Duration::from_millis(if long { before_ms } else { 2 }));
+                let cut = if fb.len() > 8 { 6 + (fb.len() - 6) / 2 } else { fb.len() };
+                ok &= c.send(&fb[..cut], &[], 0).is_ok();
+                if cut < fb.len() {
+                    std::thread::sleep(Duration::from_millis(if long { inside_ms } else { 1 }));
+                    ok &= c.send(&fb[cut..], &[], 0).is_ok();
+                }
+            }
+            ok
+        }
         _ => {
             // every frame: first byte alone, pause, next bytes up to inside the extended length / key, pause, rest
             let mut ok = true;
@@ -533,13 +597,14 @@ pub fn main(args: &Args) {
                 return r;
             }
         };
+        let lab_t = Lab::with_timeout(Some(Duration::from_millis(250))).ok();
         // handshake sweep: every Sec-WebSocket-Key length 0..=256 once (every SHA-1 padding class of key + GUID)
         if only.is_none() {
             let mut len = shard;
             while len <= 256 {
                 let mut rng = Rng::derive(seed, 0x1120_0000 + len as u64);
                 let key: String = (0..len).map(|_| (0x21 + rng.below(0x5e) as u8) as char).collect();
-                let s = Script { key: Some(key), items: vec![Item::Msg { text: true, payload: b"hi".to_vec(), cuts: vec![], controls: vec![] }], end: End::ClientClose(vec![]), nonblocking: false, echo: false, delivery: 0 };
+                let s = Script { key: Some(key), items: vec![Item::Msg { text: true, payload: b"hi".to_vec(), cuts: vec![], controls: vec![] }], end: End::ClientClose(vec![]), nonblocking: false, echo: false, delivery: 0, mixed: false, timeout_app: false };
                 let mut frng = Rng::derive(seed, 0x1121_0000 + len as u64);
                 run_script(&mut r, &lab, &s, &format!("hs{}", len), &mut frng, &["c11".to_string(), "--seed".into(), seed.to_string(), "--key-length".into(), len.to_string()]);
                 r.count("handshake_key_lengths_swept", 1);
@@ -558,7 +623,7 @@ pub fn main(args: &Args) {
                 for (v, (text, nonblocking)) in [(true, false), (false, true)].into_iter().enumerate() {
                     let mut prng = Rng::derive(seed, 0x1130_0000 + (*len as u64) * 2 + v as u64);
                     let payload: Vec<u8> = if text { (0..*len).map(|_| b'a' + prng.below(26) as u8).collect() } else { prng.bytes(*len) };
-                    let s = Script { key: Some("dGhlIHNhbXBsZSBub25jZQ==".into()), items: vec![Item::Msg { text, payload, cuts: vec![], controls: vec![] }], end: End::ClientClose(vec![]), nonblocking, echo: true, delivery: 0 };
+                    let s = Script { key: Some("dGhlIHNhbXBsZSBub25jZQ==".into()), items: vec![Item::Msg { text, payload, cuts: vec![], controls: vec![] }], end: End::ClientClose(vec![]), nonblocking, echo: true, delivery: 0, mixed: false, timeout_app: false };
                     let mut frng = Rng::derive(seed, 0x1131_0000 + *len as u64);
                     run_script(&mut r, &lab, &s, &format!("sz{}{}", len, v), &mut frng, &["c11".to_string(), "--seed".into(), seed.to_string(), "--echo-size".into(), len.to_string()]);
                     r.count("echo_sizes_swept", 1);
@@ -595,6 +660,36 @@ pub fn main(args: &Args) {
                     }
                 }
             }
+            // every third script additionally frame by frame with pauses against a handler that alternates between
+            // non-blocking polls and blocking receives (socket mode must be restored after every "nothing yet")
+            if k % 3 == 0 || only.is_some() {
+                let mut s = base.clone();
+                s.delivery = 3;
+                s.nonblocking = true;
+                s.mixed = true;
+                trim_for_slow(&mut s, 12, 4096);
+                let mut frng = Rng::derive(seed, 0x1110_0000 + k);
+                let id = format!("s{}mixed", k);
+                r.nontrivial(fnv(format!("{}{:?}", id, script_json(&s).to_string()).as_bytes()));
+                r.count("mixed_mode_scripts", 1);
+                run_script(&mut r, &lab, &s, &id, &mut frng, &replay);
+            }
+            // and every twelfth one slowly (pauses longer than the timeout) against the app with a connection timeout:
+            // that timeout governs the wait for an HTTP request, not the WebSocket session that follows the upgrade
+            if let (Some(tl), true) = (&lab_t, k % 12 == 0 || only.is_some()) {
+                for nb in [false, true] {
+                    let mut s = base.clone();
+                    s.delivery = 4;
+                    s.nonblocking = nb;
+                    s.timeout_app = true;
+                    trim_for_slow(&mut s, 4, 600);
+                    let mut frng = Rng::derive(seed, 0x1110_0000 + k);
+                    let id = format!("s{}slow{}", k, nb as u8);
+                    r.nontrivial(fnv(format!("{}{:?}", id, script_json(&s).to_string()).as_bytes()));
+                    r.count("slow_scripts_on_timeout_app", 1);
+                    run_script(&mut r, tl, &s, &id, &mut frng, &replay);
+                }
+            }
             if only.is_some() {
                 break;
             }
@@ -607,5 +702,5 @@ pub fn main(args: &Args) {
         total.nontrivial(1);
         total.nontrivial(2);
     }
-    total.write(out, "client scripts of 1..8 items over {text, binary (1..5 fragments with ping/pong interleaved between fragments), ping, pong} with payloads 0..70 KiB and random masks, ending by client Close (with/without status), server drop (handler returns) or abrupt disconnect; Sec-WebSocket-Key absent / empty / 1..256 printable chars / base64 nonce, plus one handshake for every key length 0..256 and one echoed text and binary message for every payload length 0..130 and 65530..65540; each script delivered whole, byte-wise and split inside header / extended length / key, and received once with recv and once with a recv_nonblocking polling loop (with and without echo). distinct = distinct (script, delivery, receive mode); every script is non-trivial (handshake + frames + ending judged)", None, &["'nothing yet only when no frame has started to arrive' is judged through its consequences: a completely sent message must be delivered while the handler keeps polling, and a split header must not produce an error or a garbled message", "reference client/validator: hvcommon::wsref (validated against CPython in C18)"]);
+    total.write(out, "client scripts of 1..8 items over {text, binary (1..5 fragments with ping/pong interleaved between fragments), ping, pong} with payloads 0..70 KiB and random masks, ending by client Close (with/without status), server drop (handler returns) or abrupt disconnect; Sec-WebSocket-Key absent / empty / 1..256 printable chars / base64 nonce, plus one handshake for every key length 0..256 and one echoed text and binary message for every payload length 0..130 and 65530..65540; each script delivered whole, byte-wise and split inside header / extended length / key, and received once with recv and once with a recv_nonblocking polling loop (with and without echo); every third script also frame by frame with pauses (12 ms before, 8 ms inside each frame) against a handler that alternates non-blocking polls with blocking receives; every twelfth one with 400 ms pauses against an App configured with a 250 ms connection timeout. distinct = distinct (script, delivery, receive mode); every script is non-trivial (handshake + frames + ending judged)", None, &["'nothing yet only when no frame has started to arrive' is judged through its consequences: a completely sent message must be delivered while the handler keeps polling, and a split header must not produce an error or a garbled message", "reference client/validator: hvcommon::wsref (validated against CPython in C18)"]);
 }
